@@ -121,6 +121,8 @@ pub struct DirSpec {
     pub try_write: bool,
     /// rounds the writer waits before its first write
     pub write_delay: u32,
+    /// rounds the writer waits between writes and before closing its side
+    pub write_pause: u32,
 }
 
 impl Default for DirSpec {
@@ -134,6 +136,7 @@ impl Default for DirSpec {
             explicit_shutdown: true,
             try_write: false,
             write_delay: 0,
+            write_pause: 0,
         }
     }
 }
@@ -143,7 +146,7 @@ impl DirSpec {
         json!({"total": self.total, "wchunks": self.wchunks, "rbufs": self.rbufs,
                "read_pause": self.read_pause, "peek_every": self.peek_every,
                "explicit_shutdown": self.explicit_shutdown, "try_write": self.try_write,
-               "write_delay": self.write_delay})
+               "write_delay": self.write_delay, "write_pause": self.write_pause})
     }
     pub fn from_json(v: &Value) -> DirSpec {
         let arr = |x: &Value, dflt: usize| -> Vec<usize> {
@@ -166,6 +169,7 @@ impl DirSpec {
             explicit_shutdown: v["explicit_shutdown"].as_bool().unwrap_or(true),
             try_write: v["try_write"].as_bool().unwrap_or(false),
             write_delay: v["write_delay"].as_u64().unwrap_or(0) as u32,
+            write_pause: v["write_pause"].as_u64().unwrap_or(0) as u32,
         }
     }
     pub fn canon(&self) -> String {
@@ -185,6 +189,9 @@ impl DirSpec {
         }
         if self.write_delay > 0 {
             s.push_str(&format!("y{}", self.write_delay));
+        }
+        if self.write_pause > 0 {
+            s.push_str(&format!("z{}", self.write_pause));
         }
         s
     }
